@@ -5,9 +5,9 @@
 (* code-shaped actions:                                                      *)
 (*                                                                          *)
 (*  ResumeLevel   after a restart on the storage as it stood at the crash,  *)
-(*                every topic reports, for every ID, the level that was in  *)
-(*                memory when the last commit for that topic/ID completed   *)
-(*                (OK if none, if that level was OK, or if the topic was    *)
+(*                every topic reports, for every ID, the level written by   *)
+(*                the last commit for that topic/ID that completed (OK if   *)
+(*                none, if that commit removed the ID, or if the topic was  *)
 (*                deleted);                                                  *)
 (*  FinalStateEq  after the remaining data, every topic reports the same    *)
 (*                levels as the uninterrupted run (an ID the topic does not *)
@@ -39,14 +39,14 @@ VARIABLES
     l,
     kind, cfg, hist,
     crashed,
-    recd,     \* topic -> id -> level in memory when the last commit for it completed
+    recd,     \* topic -> id -> level written by the last completed commit for it (0: none / removed)
     tolds,    \* handler events as of the last observation: topic -> seq of <<id, lvl, k>>
     toldB,    \* the same at the crash / task restart
     sDone,    \* API levels at the last completed point: topic -> id -> level
     curId, segTx,  \* ID of the point in progress; topics whose collect of it has been committed
-    inKF, kfId,
+    kfIds,    \* IDs hit by a crash of the known-deviation class and not yet healed by a later event on the named topic
     lastV, closedV, pendOp   \* svc
-vvars == <<l, kind, cfg, hist, crashed, recd, tolds, toldB, sDone, curId, segTx, inKF, kfId, lastV, closedV, pendOp>>
+vvars == <<l, kind, cfg, hist, crashed, recd, tolds, toldB, sDone, curId, segTx, kfIds, lastV, closedV, pendOp>>
 
 Ln == Trace[l]
 IsEv(e) == l <= Len(Trace) /\ Ln.ev = e /\ l' = l + 1
@@ -67,54 +67,57 @@ VInit ==
     /\ l = 1 /\ HWInit
     /\ kind = "" /\ cfg = [anon |-> TRUE, named |-> TRUE, sco |-> FALSE] /\ hist = <<>>
     /\ crashed = FALSE /\ recd = Zero /\ tolds = NoTold /\ toldB = NoTold /\ sDone = Zero
-    /\ curId = "" /\ segTx = {} /\ inKF = FALSE /\ kfId = ""
+    /\ curId = "" /\ segTx = {} /\ kfIds = {}
     /\ lastV = Zero /\ closedV = NoneClosed /\ pendOp = <<>>
 
 VReset ==
     /\ IsEv("Reset")
-    /\ kind' = Ln.kind /\ cfg' = [anon |-> Ln.anon, named |-> Ln.named, sco |-> Ln.sco] /\ hist' = Ln.hist
+    /\ kind' = Ln.kind /\ cfg' = [anon |-> Ln.hasAnon, named |-> Ln.hasNamed, sco |-> Ln.sco] /\ hist' = Ln.hist
     /\ crashed' = FALSE /\ recd' = Zero /\ tolds' = NoTold /\ toldB' = NoTold /\ sDone' = Zero
-    /\ curId' = "" /\ segTx' = {} /\ inKF' = FALSE /\ kfId' = ""
+    /\ curId' = "" /\ segTx' = {} /\ kfIds' = {}
     /\ lastV' = Zero /\ closedV' = NoneClosed /\ pendOp' = <<>>
 
 VStart ==
     /\ IsEv("Start")
     /\ Levels(Ln.state) = Zero
-    /\ UNCHANGED <<kind, cfg, hist, crashed, recd, tolds, toldB, sDone, curId, segTx, inKF, kfId, lastV, closedV, pendOp>>
+    /\ UNCHANGED <<kind, cfg, hist, crashed, recd, tolds, toldB, sDone, curId, segTx, kfIds, lastV, closedV, pendOp>>
 
 VPoint ==
     /\ IsEv("Point")
     /\ hist[Ln.k + 1] = <<Ln.id, Ln.lvl>>
     /\ curId' = Ln.id /\ segTx' = {}
-    /\ UNCHANGED <<kind, cfg, hist, crashed, recd, tolds, toldB, sDone, inKF, kfId, lastV, closedV, pendOp>>
+    /\ UNCHANGED <<kind, cfg, hist, crashed, recd, tolds, toldB, sDone, kfIds, lastV, closedV, pendOp>>
 
 VOp ==
     /\ IsEv("Op")
     /\ pendOp' = <<Ln.op, Ln.topic, Ln.id, Ln.lvl>>
-    /\ UNCHANGED <<kind, cfg, hist, crashed, recd, tolds, toldB, sDone, curId, segTx, inKF, kfId, lastV, closedV>>
+    /\ UNCHANGED <<kind, cfg, hist, crashed, recd, tolds, toldB, sDone, curId, segTx, kfIds, lastV, closedV>>
 
-(* a commit of the topic store completed: what the topic held in memory for that ID is now recorded *)
+(* a commit of the topic store completed: what it wrote is now the recorded level of that topic/ID *)
 VTx ==
     /\ IsEv("Tx")
     /\ WellFormed(Ln.state)
     /\ recd' = IF Ln.op = "delbucket"
                THEN [recd EXCEPT ![Ln.topic] = [i \in Ids |-> 0]]
-               ELSE [recd EXCEPT ![Ln.topic][Ln.id] = LvlOf(Ln.state[Ln.topic], Ln.id)]
+               ELSE [recd EXCEPT ![Ln.topic][Ln.id] = IF Ln.op = "put" THEN Ln.lvl ELSE 0]
     /\ segTx' = IF Ln.src = "collect" THEN segTx \cup {Ln.topic} ELSE segTx
     /\ tolds' = IF kind = "svc" THEN tolds ELSE ToldOf(Ln.told)
-    /\ UNCHANGED <<kind, cfg, hist, crashed, toldB, sDone, curId, inKF, kfId, lastV, closedV, pendOp>>
+    /\ kfIds' = IF Ln.src = "collect" /\ Ln.topic = "named" THEN kfIds \ {Ln.id} ELSE kfIds
+    /\ UNCHANGED <<kind, cfg, hist, crashed, toldB, sDone, curId, lastV, closedV, pendOp>>
 
 VPre ==
     /\ IsEv("Pre")
     /\ tolds' = IF kind = "svc" THEN tolds ELSE ToldOf(Ln.told)
-    /\ UNCHANGED <<kind, cfg, hist, crashed, recd, toldB, sDone, curId, segTx, inKF, kfId, lastV, closedV, pendOp>>
+    /\ UNCHANGED <<kind, cfg, hist, crashed, recd, toldB, sDone, curId, segTx, kfIds, lastV, closedV, pendOp>>
 
+(* the level map after operation op (a tuple <<op, topic, id, lvl>>) has taken effect *)
+SvcAfter(op, lv) ==
+    CASE op[1] = "collect" -> [lv EXCEPT ![op[2]][op[3]] = op[4]]
+      [] op[1] = "close"   -> lv
+      [] op[1] = "delete"  -> [lv EXCEPT ![op[2]] = [i \in Ids |-> 0]]
 SvcApply(op) ==
-    CASE op[1] = "collect" -> /\ lastV' = [lastV EXCEPT ![op[2]][op[3]] = op[4]]
-                              /\ closedV' = [closedV EXCEPT ![op[2]] = FALSE]
-      [] op[1] = "close"   -> /\ closedV' = [closedV EXCEPT ![op[2]] = TRUE] /\ UNCHANGED lastV
-      [] op[1] = "delete"  -> /\ lastV' = [lastV EXCEPT ![op[2]] = [i \in Ids |-> 0]]
-                              /\ closedV' = [closedV EXCEPT ![op[2]] = FALSE]
+    /\ lastV' = SvcAfter(op, lastV)
+    /\ closedV' = [closedV EXCEPT ![op[2]] = (op[1] = "close")]
 
 SvcStateOK(o) == WellFormed(o) /\ \A t \in Topics : closedV'[t] \/ Levels(o)[t] = lastV'[t]
 
@@ -128,31 +131,34 @@ VDone ==
             /\ tolds' = ToldOf(Ln.told) /\ sDone' = Levels(Ln.state)
             /\ \A t \in Act : Truthful(Ln.told[t])
             /\ UNCHANGED <<lastV, closedV, pendOp>>
-    /\ UNCHANGED <<kind, cfg, hist, crashed, recd, toldB, curId, segTx, inKF, kfId>>
+    /\ UNCHANGED <<kind, cfg, hist, crashed, recd, toldB, curId, segTx, kfIds>>
 
 VCrash ==
     /\ IsEv("Crash")
-    /\ crashed' = TRUE /\ toldB' = tolds
-    /\ inKF' = (kind = "crash" /\ cfg.anon /\ cfg.named /\ cfg.sco /\ Ln.resume = Ln.k
-                /\ "anon" \in segTx /\ "named" \notin segTx)
-    /\ kfId' = curId
-    /\ pendOp' = <<>>
-    /\ UNCHANGED <<kind, cfg, hist, recd, tolds, sDone, curId, segTx, lastV, closedV>>
+    /\ crashed' = TRUE /\ toldB' = [t \in Topics |-> toldB[t] \o tolds[t]]
+    /\ kfIds' = IF kind = "crash" /\ cfg.anon /\ cfg.named /\ cfg.sco /\ Ln.resume = Ln.k
+                    /\ "anon" \in segTx /\ "named" \notin segTx
+                 THEN kfIds \cup {curId} ELSE kfIds
+    /\ UNCHANGED <<kind, cfg, hist, recd, tolds, sDone, curId, segTx, lastV, closedV, pendOp>>
 
 VRestart ==
     /\ IsEv("Restart")
     /\ WellFormed(Ln.state)
     /\ Levels(Ln.state) = recd                                  \* ResumeLevel
-    /\ lastV' = recd /\ closedV' = NoneClosed
+    (* svc: every operation that returned before the crash is durable; the one cut short *)
+    (* by the crash (if any) has taken effect completely or not at all                    *)
+    /\ (kind = "svc") =>
+         (Levels(Ln.state) = lastV \/ (pendOp # <<>> /\ Levels(Ln.state) = SvcAfter(pendOp, lastV)))
+    /\ lastV' = Levels(Ln.state) /\ closedV' = NoneClosed /\ pendOp' = <<>>
     /\ tolds' = NoTold
-    /\ UNCHANGED <<kind, cfg, hist, crashed, recd, toldB, sDone, curId, segTx, inKF, kfId, pendOp>>
+    /\ UNCHANGED <<kind, cfg, hist, crashed, recd, toldB, sDone, curId, segTx, kfIds>>
 
 VTaskRestart ==
     /\ IsEv("TaskRestart")
     /\ WellFormed(Ln.state)
     /\ Levels(Ln.state) = sDone                                 \* every level survives the task restart
     /\ toldB' = ToldOf(Ln.told) /\ tolds' = ToldOf(Ln.told)
-    /\ UNCHANGED <<kind, cfg, hist, crashed, recd, sDone, curId, segTx, inKF, kfId, lastV, closedV, pendOp>>
+    /\ UNCHANGED <<kind, cfg, hist, crashed, recd, sDone, curId, segTx, kfIds, lastV, closedV, pendOp>>
 
 (* parameterised so that TLC does not pre-evaluate it as a constant *)
 KFHit(id) == PrintT(<<"KF-HIT", "c08-named-topic-missed", id>>)
@@ -170,9 +176,9 @@ VEnd ==
                      A == LastTold(all, id)
                  IN \/ /\ LvlOf(Ln.final2[t], id) = F            \* FinalStateEq
                        /\ (F # B => A = F)                       \* NoSilentMiss
-                    \/ /\ inKF /\ t = "named" /\ id = kfId        \* the known deviation, and only it
+                    \/ /\ t = "named" /\ id \in kfIds             \* the known deviation, and only it
                        /\ KFHit(id)
-    /\ UNCHANGED <<kind, cfg, hist, crashed, recd, tolds, toldB, sDone, curId, segTx, inKF, kfId, lastV, closedV, pendOp>>
+    /\ UNCHANGED <<kind, cfg, hist, crashed, recd, tolds, toldB, sDone, curId, segTx, kfIds, lastV, closedV, pendOp>>
 
 VNext == VReset \/ VStart \/ VPoint \/ VOp \/ VTx \/ VPre \/ VDone \/ VCrash \/ VRestart \/ VTaskRestart \/ VEnd
 VSpec == VInit /\ [][VNext]_vvars
